@@ -20,6 +20,11 @@ static const char* alphabet(const std::string& k) {
 }
 
 int main() {
+  // "decoding throws invalid_argument": a type derived from it is an invalid_argument
+  shim::exception_namer() = [](const std::exception& e) -> std::string {
+    if (dynamic_cast<const std::invalid_argument*>(&e)) return typeid(std::invalid_argument).name();
+    return typeid(e).name();
+  };
   return shim::serve([](const shim::Blobs& req) -> shim::Blobs {
     const std::string& op = req.at(0);
     if (op == "b64enc") return {phosg::base64_encode(req.at(2), alphabet(req.at(1)))};
